@@ -52,26 +52,12 @@ def classify(vio, listed):
 
 
 # ------------------------------------------------------------------------------- classifiers
-@classifier("c02_unison_echo")
-def _c02_unison_echo(v):
-    # normal-form clause only, unison constructors only, and the result is exactly the documented
-    # echo (diminish(x) / x / augment(x)) of the input: see DESIGN.md section 6.
-    s = v.get("shape") or {}
-    return (v.get("property") == "C02" and s.get("kind") == "unison-normal-form"
-            and s.get("constructor") in ("minor_unison", "major_unison", "augmented_unison")
-            and s.get("result_is_echo") is True)
-
-
-@classifier("c18_unequal_rhythm")
-def _c18_unequal(v):
-    s = v.get("shape") or {}
-    return (v.get("property") == "C18" and s.get("parallel") is True
-            and s.get("boundaries_differ") is True)
-
-
-@classifier("c18_tick_drift")
-def _c18_drift(v):
-    s = v.get("shape") or {}
-    return (v.get("property") == "C18" and s.get("parallel") is True
-            and s.get("boundaries_differ") is False and s.get("float_sum_short") is True
-            and s.get("extra_is_last_entry_replay") is True)
+# None at present: every defect found so far has been repaired in /repo (see the `fixed:` lines of
+# known_findings.txt). The C18 checker still computes the input-shape features (parallel playback,
+# differing entry boundaries, float sum short of the bar length) and stores them in the `shape` of a
+# violation, so a classifier can be registered here again should a finding have to be listed:
+#
+#   @classifier("c18_unequal_rhythm")
+#   def _c18_unequal(v):
+#       s = v.get("shape") or {}
+#       return v.get("property") == "C18" and s.get("parallel") is True and s.get("boundaries_differ") is True
